@@ -7,6 +7,6 @@ from harness import envcheck  # noqa: E402
 
 for ad in envcheck.load_adapters():
     for t in ("quick", "thorough"):
-        ids = [c["id"] for c in ad.configs(t)]
+        ids = [c["id"] for c in ad.all_configs(t)]
         assert len(ids) == len(set(ids)), (ad.name, t, sorted({i for i in ids if ids.count(i) > 1}))
 print("sanity ok")
